@@ -660,6 +660,7 @@ Record txobs := mkTxObs {
   x_status : N;               (* 0 nil error, 1 errExecutionReverted, 2 any other error *)
   x_gas : N;                  (* leftOverGas *)
   x_refund : N;
+  x_logs : N;                 (* StateDB.logSize: the block-wide log counter that AddLog stamps into Log.Index *)
   x_burnt : N;                (* value destroyed by SELFDESTRUCT-to-self in surviving frames (from the tracer) *)
   x_accts : list obs          (* every address the harness knows about, after the transaction, before Finalise *)
 }.
@@ -672,6 +673,7 @@ Record case := mkCase {
   i_txs : list tx;
   e_txs : list txobs;
   e_logs : list log;          (* all logs of the block, oldest first *)
+  e_logidx : list N;          (* their Log.Index fields *)
   e_final : list obs          (* the same addresses read from a fresh StateDB opened on the roots committed after the
                                  last transaction's Finalise (on a copy of the state, flushed to disk) *)
 }.
@@ -696,12 +698,17 @@ Definition obs_ok (s : state) (o : obs) : bool :=
               && Bool.eqb (a_dead x) (o_dead o) && forallb (fun kv => N.eqb (o_state x (fst kv)) (snd kv)) (o_stor o)
   end.
 
+(* logSize: one per journalled log of the block that is still there - a failed frame's addLogChange
+   entries are undone with the rest of its journal *)
+Definition log_count (s : state) : N := N.of_nat (length (logs s)).
+
 Definition tx_ok (r : res) (x : txobs) : bool :=
   N.eqb (status_code (r_status r)) (x_status x)
   && N.eqb (r_gas r) (x_gas x)
   && forallb (obs_ok (r_st r)) (x_accts x)
   && forallb (fun p => existsb (fun o => addr_eqb (fst p) (o_addr o) && o_exists o) (x_accts x)) (accts (r_st r))
   && N.eqb (refund (r_st r)) (x_refund x)
+  && N.eqb (log_count (r_st r)) (x_logs x)
   && N.eqb (r_burnt r) (x_burnt x).
 
 (* runs the block; None = some transaction disagreed *)
@@ -723,6 +730,7 @@ Definition case_ok (G : gastab) (c : case) : bool :=
   match check_block G (i_prog c) (i_txs c) (e_txs c) (mkSt (i_accts c) [] 0 [] []) with
   | Some s =>
     list_eqb log_eqb (rev (logs s)) (e_logs c)
+    && list_eqb N.eqb (map N.of_nat (List.seq 0 (length (logs s)))) (e_logidx c)
     && match i_txs c with
        | [] => true
        | _ => let f := finalise s in
